@@ -36,6 +36,7 @@ pub fn menu_p1(a: usize, b: usize) -> Menu {
         ask_bases: vec!["base", "conv"],
         two_approvers: false,
         modifies: vec![],
+        quotes: vec![],
     }
 }
 
@@ -61,6 +62,7 @@ pub fn menu_p0(a: usize, b: usize, prices: Vec<&'static str>) -> Menu {
         ask_bases: vec!["base", "conv"],
         two_approvers: false,
         modifies: vec![],
+        quotes: vec![],
     }
 }
 
@@ -76,6 +78,7 @@ pub fn menu_p2(a: usize, b: usize) -> Menu {
         ask_bases: vec!["base", "conv"],
         two_approvers: false,
         modifies: vec![],
+        quotes: vec![],
     }
 }
 
@@ -92,6 +95,7 @@ pub fn menu_large(a: usize, b: usize) -> Menu {
         ask_bases: vec!["base", "conv"],
         two_approvers: false,
         modifies: vec![],
+        quotes: vec![],
     }
 }
 
@@ -107,6 +111,7 @@ pub fn menu_p3(a: usize, b: usize) -> Menu {
         ask_bases: vec!["base", "conv"],
         two_approvers: false,
         modifies: vec![],
+        quotes: vec![],
     }
 }
 
@@ -133,10 +138,32 @@ fn fee_account_swap(cfg: &Cfg) -> Vec<(&'static str, Modify)> {
     v
 }
 
-/// markers over (base, conv, q1): 'r' restricted, 'u' unrestricted marker, 'n' no marker
+/// two convertible and two quote denominations
+pub fn multi(mut cfg: Cfg) -> Cfg {
+    cfg.convs = vec!["conv".into(), "conv2".into()];
+    cfg.quotes = vec!["q1".into(), "q2".into()];
+    cfg
+}
+
+pub fn menu_multi(a: usize, b: usize) -> Menu {
+    Menu {
+        ask_slots: a,
+        bid_slots: b,
+        prices: vec!["2", "3"],
+        sizes: vec![2],
+        match_sizes: vec![1, 2],
+        reject_sizes: vec![],
+        ask_bases: vec!["base", "conv", "conv2"],
+        two_approvers: false,
+        modifies: vec![],
+        quotes: vec!["q1", "q2"],
+    }
+}
+
+/// markers over (base, conv, q1[, conv2, q2]): 'r' restricted, 'u' unrestricted marker, 'n' no marker
 pub fn with_markers(cfg: Cfg, spec: &str) -> Cfg {
     let mut t = vec![];
-    for (d, c) in ["base", "conv", "q1"].iter().zip(spec.chars()) {
+    for (d, c) in ["base", "conv", "q1", "conv2", "q2"].iter().zip(spec.chars()) {
         match c {
             'r' => t.push((*d, Marker::Restricted)),
             'u' => t.push((*d, Marker::Coin)),
@@ -208,7 +235,10 @@ fn ledger_scenarios(tier: Tier, extra_probes: &dyn Fn(&Cfg, &Menu) -> Vec<Act>) 
     mk("B11/P1/F1/R2/rur", with_markers(Cfg::new(0, 2, ("0.25", "0.25"), "R2"), "rur"), menu_p1(1, 1), &mut v);
     mk("B11/P2/F1/R0", Cfg::new(1, 10, ("0.25", "0.25"), "R0"), menu_p2(1, 1), &mut v);
     mk("B11/p14/large-amounts", Cfg::new(14, 300_000_000_000_000, ("0.25", "0.25"), "R0"), menu_large(1, 1), &mut v);
+    mk("B11/multi-denom/nrnur", with_markers(multi(Cfg::new(0, 2, ("0.25", "0.25"), "R0")), "nrnur"), menu_multi(1, 1), &mut v);
     if tier == Tier::Thorough {
+        mk("B21/multi-denom", multi(Cfg::new(0, 2, ("0.25", "0.25"), "R0")), menu_multi(2, 1), &mut v);
+        mk("B12/multi-denom/rrrnn", with_markers(multi(Cfg::new(0, 2, ("0.25", "0.25"), "R1")), "rrrnn"), menu_multi(1, 2), &mut v);
         mk("B22/P1/F1/R0", Cfg::new(0, 2, ("0.25", "0.25"), "R0"), menu_p1(2, 2), &mut v);
         mk("B21/P1/F2/R4", Cfg::new(0, 2, ("0.1", "0.1"), "R4"), Menu { prices: vec!["2", "7"], ..menu_p1(2, 1) }, &mut v);
         mk("B12/P1big/F1/R0", Cfg::new(0, 2, ("0.25", "0.25"), "R0"), menu_p1_big(1, 2), &mut v);
@@ -247,10 +277,12 @@ pub fn plan(prop: &str, tier: Tier) -> Plan {
             };
             mk("B21/P1/F1/R0", Cfg::new(0, 2, ("0.25", "0.25"), "R0"), menu_p1(2, 1), &mut v);
             mk("B12/P1/F1/R0", Cfg::new(0, 2, ("0.25", "0.25"), "R0"), menu_p1(1, 2), &mut v);
-            mk("B11/P2/F0/R0", Cfg::new(1, 10, ("", ""), "R0"), menu_p2(1, 1), &mut v);
+            mk("B11/P2/F0/R0", Cfg::new(1, 10, ("", ""), "R0"), Menu { prices: vec!["0.5", "1", "1.5", "1.50"], ..menu_p2(1, 1) }, &mut v);
             mk("B11/P0/F3/R0", Cfg::new(0, 1, ("0.5", "0.5"), "R0"), menu_p0(1, 1, vec!["1", "2"]), &mut v);
             mk("B11/P0/F3/R0/rrr", with_markers(Cfg::new(0, 1, ("0.5", "0.5"), "R0"), "rrr"), menu_p0(1, 1, vec!["1", "2"]), &mut v);
+            mk("B11/multi-denom", multi(Cfg::new(0, 2, ("0.25", "0.25"), "R0")), menu_multi(1, 1), &mut v);
             if th {
+                mk("B21/multi-denom", multi(Cfg::new(0, 2, ("0.25", "0.25"), "R0")), menu_multi(2, 1), &mut v);
                 mk("B12/P2/F1/R0", Cfg::new(1, 10, ("0.25", "0.25"), "R0"), menu_p2(1, 2), &mut v);
                 mk("B21/P2/F0/R3", Cfg::new(1, 10, ("", ""), "R3"), menu_p2(2, 1), &mut v);
                 mk("B11/P3/F1/R0", Cfg::new(2, 100, ("0.25", "0.25"), "R0"), menu_p3(1, 1), &mut v);
@@ -308,6 +340,7 @@ pub fn plan(prop: &str, tier: Tier) -> Plan {
             mk("B11/P1/F0/R0/rrr", with_markers(Cfg::new(0, 2, ("", ""), "R0"), "rrr"), menu_p1(1, 1), &mut v);
             mk("B11/P1/F1/R0/urn", with_markers(Cfg::new(0, 2, ("0.25", "0.25"), "R0"), "urn"), menu_p1(1, 1), &mut v);
             mk("B11/P3/F2/R0", Cfg::new(2, 100, ("0.1", "0.1"), "R0"), menu_p3(1, 1), &mut v);
+            mk("B11/multi-denom/nrnur", with_markers(multi(Cfg::new(0, 2, ("0.25", "0.25"), "R0")), "nrnur"), menu_multi(1, 1), &mut v);
             v.push(with_legacy_seed(scen("B11/P1/F1/R0", Cfg::new(0, 2, ("0.25", "0.25"), "R0"), menu_p1(1, 1), vec![])));
             if th {
                 mk("B22/P1/F1/R0", Cfg::new(0, 2, ("0.25", "0.25"), "R0"), menu_p1(2, 2), &mut v);
@@ -406,6 +439,10 @@ pub fn plan(prop: &str, tier: Tier) -> Plan {
                         v.push(scen(&format!("B11/P0/F1/{spec}"), cfg, menu, p));
                     }
                 }
+            }
+            for spec in ["nrnur", "rnrnu", "urunr", "rurrn"] {
+                let cfg = with_markers(multi(Cfg::new(0, 2, ("0.25", "0.25"), "R0")), spec);
+                v.push(scen(&format!("B11/multi-denom/{spec}"), cfg, menu_multi(1, 1), vec![]));
             }
             // fee consumes the whole proceeds, under restricted / unrestricted quote
             for spec in ["nnn", "nnr", "rrr", "run"] {
